@@ -75,6 +75,11 @@ def _zero(e):
 def check(chk, label, op, ift, spec=None, cplx=False, complex_linear=True, group="catalogue"):
     """the LinearOperator.apply contract for one constructed operator"""
     lab = f"{group}: {label}{' [complex input]' if cplx else ''}"
+    try:
+        if type(op).__module__.startswith("nifty."):
+            chk.under_contract(type(op).apply)
+    except Exception:  # noqa: BLE001
+        pass
     x, xs = _sym_on(ift, op.domain, "x", cplx)
     before = list(xs)
     try:
